@@ -130,7 +130,12 @@ pub fn run_case(case: &J, n_threads: usize, n_evals: usize, mode: &str) -> Resul
                 }
             }
         }
-        "hammer" => {
+        "hammer" | "hammer_calls" => {
+            // (hammer_calls: the full rules, user functions included, on rulesets whose functions never suspend)
+            if mode == "hammer_calls" && case["env"]["funcs"].as_array().map(|fs| fs.iter().any(|f| f["suspend"].as_u64().unwrap_or(0) > 0)).unwrap_or(true) {
+                return Ok(ThreadsResult { evaluations: 0, records: Vec::new(), mismatches: Vec::new() });
+            }
+            let log_h = log.clone();
             // n_evals evaluations per thread, back to back, no suspension: only the comparison with the sequential run
             let bad = std::sync::Mutex::new(Vec::new());
             std::thread::scope(|sc| {
@@ -138,6 +143,7 @@ pub fn run_case(case: &J, n_threads: usize, n_evals: usize, mode: &str) -> Resul
                     let rs = rs.clone();
                     let bad = &bad;
                     let reference = &reference;
+                    let log_h = log_h.clone();
                     sc.spawn(move || {
                         for k in 0..n_evals {
                             let id = 1 + t * n_evals + k;
@@ -150,6 +156,9 @@ pub fn run_case(case: &J, n_threads: usize, n_evals: usize, mode: &str) -> Resul
                             if x != reference[id % NI] {
                                 bad.lock().unwrap().push((id, x));
                                 return;
+                            }
+                            if k % 256 == 255 {
+                                log_h.entries.lock().unwrap().clear();       // (the log is not used in this mode)
                             }
                         }
                     });
